@@ -48,6 +48,9 @@ VARIANTS = [
     ("C02", "mutant", P + "deviate.py", "                # any infinite value makes the variance NaN\n                self.varianceTimesEntries = float(\"nan\")\n", "", "variance stays finite after an infinite datum"),
     ("C02", "neutral", P + "average.py", "                elif math.isinf(q):\n                    self.mean = q  # mean becomes infinite with sign of q\n                else:\n                    pass  # mean is already infinite", "                elif math.isinf(q):\n                    self.mean = q  # mean becomes infinite with sign of q", "empty else removed"),
     # ---------------- C03
+    ("C03", "mutant", P + "average.py", "        elif ca_plus_cb > ca:  # the batch has positive weight (numpy.average cannot normalize a zero total)", "        elif ca_plus_cb > 0.0:", "Average._numpy averages a batch without positive weight again"),
+    ("C03", "neutral", P + "average.py", "        elif ca_plus_cb > ca:  # the batch has positive weight (numpy.average cannot normalize a zero total)", "        elif ca_plus_cb - ca > 0.0:", "positive batch weight written as a difference"),
+    ("C03", "mutant", P + "collection.py", "            if shape[0] is None and isinstance(x, Count):\n                waiting.append(x)\n            else:\n                x._numpy(data, weights, shape)", "            x._numpy(data, weights, shape)", "collections hand the batch to Counts before its length is known again"),
     ("C03", "mutant", P + "bin.py", "weights[q == self.high] = 0.0", "weights[q == self.high] == 0.0", "q == high counted twice in the fast path"),
     ("C03", "mutant", P + "stack.py", "            numpy.less(q, threshold, selection)", "            numpy.less_equal(q, threshold, selection)", "vectorised threshold edge"),
     ("C03", "mutant", P + "centrallybin.py", "        q = np.array(q, dtype=np.float64)\n        q[selection] = 0.0", "        q[selection] = 0.0", "writes into the caller's array"),
